@@ -584,6 +584,12 @@ def run(R):
                 R.count("%s:%s" % (name, "returned" if st == "ok" else "raised:" + st))
                 if (st == "runtime" and "did not converge" in str(o)) or st == "other:SolverError":
                     continue        # loud: RuntimeError('Optimization did not converge.') / the solver's own error; nothing was returned
+            if name == "excitation" and "sequence" in c and st == "runtime" and "did not converge" in str(o):
+                # the finely sampled sequences are fitted with solver="CLARABEL" chosen by the harness (the default SCS bisection would take
+                # ~1 s per frame); CLARABEL's bisection stops at its iteration limit on roughly one target in five and dreye then raises
+                # "did not converge" (DESIGN 9.4, `user_limit`): a loud refusal of a harness-chosen solver over > 100 frames, not a wrong
+                # answer. Counted; the gaussian and Poisson fits of the same sequence are still judged.
+                R.count("sequence:excitation-with-CLARABEL-did-not-converge(loud)"); continue
             if st == "other:SolverError":
                 # the conic solver itself gave up (cvxpy raises): a loud runtime failure, not a wrong answer; the model cannot exhibit it.
                 # counted, and a violation only when it becomes systematic (see the end of run)
